@@ -55,7 +55,8 @@ CHECKS = {
              "each of a sequence of requests. The nodes built on a queue tank (Sewer, QueueGroundwater) are modelled (TimeArea.v) "
              "and compared exactly (family tarea); probes on whole models, every tagged push the library emits against every target "
              "class, whole models (node without boundary terms: arc records = store change) and the sewer duo monitor (late bounces "
-             "with changed quality) evaluate the clauses on the implementation.",
+             "with changed quality) evaluate the clauses on the implementation. Theorems (SewerLaws.v): Sewer.make_discharge and "
+             "QueueGroundwater.distribute against any contract-respecting neighbours - tank loss = carried by the out-arcs.",
         design="5/C04", tech="Coq proof (contract-parametric) over hand-written models + exact-rational correspondence",
         note=NOTE + "Scope: component level (all arc classes x {Tank, scripted accept/part/none} ends); other node classes enter through the contract, whose instances for them are not yet proved."),
     "C05": dict(
